@@ -135,6 +135,26 @@ pub fn hash_cli_family() -> Result<(u64, Vec<(String, String)>), String>
         Ok(())
     };
     let base: Vec<(&str, Option<&[u8]>)> = vec![("a", Some(b"x")), ("b", Some(b"y")), ("sub", None), ("sub/c", Some(b"z")), ("empty", None)];
+    // names that begin with a dot are names like any other
+    {
+        let dotted: Vec<(&str, Option<&[u8]>)> = vec![("a", Some(b"x")), (".hidden", Some(b"h")), (".dir", None), (".dir/inner", Some(b"i"))];
+        mk("t2", &dotted)?;
+        let hd = run("t2");
+        n += 1;
+        let changes: Vec<(&str, Vec<(&str, Option<&[u8]>)>)> = vec![
+            ("the content of a dot-file changed", vec![("a", Some(b"x")), (".hidden", Some(b"H")), (".dir", None), (".dir/inner", Some(b"i"))]),
+            ("a dot-file renamed", vec![("a", Some(b"x")), (".hidden2", Some(b"h")), (".dir", None), (".dir/inner", Some(b"i"))]),
+            ("a dot-file removed", vec![("a", Some(b"x")), (".dir", None), (".dir/inner", Some(b"i"))]),
+            ("a file inside a dot-directory changed", vec![("a", Some(b"x")), (".hidden", Some(b"h")), (".dir", None), (".dir/inner", Some(b"I"))]),
+            ("a dot-directory renamed", vec![("a", Some(b"x")), (".hidden", Some(b"h")), (".dir2", None), (".dir2/inner", Some(b"i"))]),
+        ];
+        for (what, v) in changes
+        {
+            mk("t2", &v)?;
+            n += 1;
+            if run("t2") == hd { bad.push(("`ruler hash` of a directory is unchanged after a contained name or content changed".to_string(), what.to_string())); }
+        }
+    }
     mk("t0", &base)?;
     let h0 = run("t0");
     n += 1;
@@ -424,7 +444,8 @@ pub fn replay_trace_real(bin: &Path, sc: &Scenario, ops: &[Op], dir: &Path) -> O
             {
                 return Some(format!("step {} {}: real binary {} (stderr {:?}) but the model {}", i, op.short(), if rr.ok { "succeeds" } else { "fails" }, crate::cli::first_line(&rr.stderr), if *ok { "succeeds" } else { "fails" }));
             }
-            if *deterministic && matches!(op, Op::Build { .. }) && rr.ok && rr.banners != *banners
+            // (also when the build fails: the rules that finished still get their status lines)
+            if *deterministic && matches!(op, Op::Build { .. }) && rr.banners != *banners
             {
                 return Some(format!("step {} {}: status lines differ: real {:?} model {:?}", i, op.short(), rr.banners, banners));
             }
@@ -501,6 +522,49 @@ pub fn run_realfs(rep: &mut Report, tier: &str)
     let mut scs = vec![crate::scen::s6_exec(), crate::scen::s1_chain(), crate::scen::s3_multi(), crate::scen::s10_bundle(), crate::scen::s13_binary(), crate::scen::s18_empty()];
     if tier == "thorough" { scs.push(crate::scen::s4_twins()); }
     run_realfs_for(rep, tier, "C10", scs);
+}
+
+/// C10 on the real file system for a target that is a symbolic link (the in-memory file system has no
+/// links): build, build, clean, build.  After the clean the target is gone from the workspace and its
+/// content is readable in the cache; the last build brings it back with the same content and runs nothing.
+pub fn symlink_target_probe(rep: &mut Report)
+{
+    let bin = match build_real_binary() { Ok(b) => b, Err(e) => { rep.machinery(e); return; } };
+    let dir = scratch("symlink-target");
+    let abs = |rel: &str| dir.join(rel).to_string_lossy().to_string();
+    write_file(&dir, "version.txt", b"version one\n");
+    write_file(&dir, "out/.keep", b"");
+    let rules = format!("out/current\n:\nversion.txt\n:\nln -sf {} out/current\n;\necho ran >> commands.log\n:\n", abs("version.txt"));
+    write_file(&dir, RULES_FILE, rules.as_bytes());
+    let mut bad: Vec<String> = vec![];
+    let ran = |d: &Path| fs::read_to_string(d.join("commands.log")).map(|s| s.lines().count()).unwrap_or(0);
+    let r1 = run_ruler(&bin, &dir, &["build"]);
+    if !r1.ok || fs::read(dir.join("out/current")).ok().as_deref() != Some(&b"version one\n"[..]) { rep.machinery(format!("symlink probe: the first build did not produce the link ({})", crate::cli::first_line(&r1.stderr))); let _ = fs::remove_dir_all(&dir); return; }
+    let r2 = run_ruler(&bin, &dir, &["build"]);
+    if !r2.ok || ran(&dir) != 1 { bad.push(format!("an immediate second build ran the command again or failed ({} executions, stderr {:?})", ran(&dir), crate::cli::first_line(&r2.stderr))); }
+    let r3 = run_ruler(&bin, &dir, &["clean"]);
+    if !r3.ok { bad.push(format!("clean failed: {}", crate::cli::first_line(&r3.stderr))); }
+    if fs::symlink_metadata(dir.join("out/current")).is_ok() { bad.push("the target is still in the workspace after clean".to_string()); }
+    let mut in_cache = false;
+    if let Ok(rd) = fs::read_dir(dir.join(CACHE_DIR)) { for e in rd.flatten() { if fs::read(e.path()).ok().as_deref() == Some(&b"version one\n"[..]) { in_cache = true; } } }
+    if !in_cache { bad.push("the content of the cleaned target is not in the cache".to_string()); }
+    let r4 = run_ruler(&bin, &dir, &["build"]);
+    if !r4.ok { bad.push(format!("the build after clean failed: {}", crate::cli::first_line(&r4.stderr))); }
+    if fs::read(dir.join("out/current")).ok().as_deref() != Some(&b"version one\n"[..]) { bad.push("the target did not come back byte-identical".to_string()); }
+    if ran(&dir) != 1 { bad.push(format!("a command ran although the cleaned target was recoverable ({} executions in total)", ran(&dir))); }
+    let _ = fs::remove_dir_all(&dir);
+    rep.add("traces_validated_against_impl", 1);
+    rep.set("symlink_target_probe", json!({"history": "build ; build ; clean ; build", "findings": bad.len()}));
+    if !bad.is_empty()
+    {
+        rep.violation(Violation
+        {
+            property: "C10".into(),
+            signature: "C10:symlink:a target that is a symbolic link does not survive build ; build ; clean ; build".to_string(),
+            summary: format!("target out/current made by `ln -sf`: {}", bad.join("; ")),
+            replay: json!({"engine": "symlink"}),
+        });
+    }
 }
 
 /// The same replays under another property's name (C20: the status lines the real binary prints —
@@ -618,7 +682,8 @@ pub fn http_get(port: u16, raw_path: &str) -> Result<Resp, String>
         match http_get_once(port, raw_path)
         {
             Ok(r) => return Ok(r),
-            Err(e) => { last = e; std::thread::sleep(Duration::from_millis(50 * (attempt + 1))); },
+            // a request that timed out is not repeated (the server had 10 s); connection errors are
+            Err(e) => { let timed_out = e.starts_with("read:") || e.starts_with("write:"); last = e; if timed_out { break; } std::thread::sleep(Duration::from_millis(50 * (attempt + 1))); },
         }
     }
     Err(last)
@@ -627,8 +692,8 @@ pub fn http_get(port: u16, raw_path: &str) -> Result<Resp, String>
 fn http_get_once(port: u16, raw_path: &str) -> Result<Resp, String>
 {
     let mut s = TcpStream::connect(("127.0.0.1", port)).map_err(|e| format!("connect: {}", e))?;
-    s.set_read_timeout(Some(Duration::from_secs(20))).ok();
-    s.set_write_timeout(Some(Duration::from_secs(20))).ok();
+    s.set_read_timeout(Some(Duration::from_secs(10))).ok();
+    s.set_write_timeout(Some(Duration::from_secs(10))).ok();
     let req = format!("GET {} HTTP/1.1\r\nHost: 127.0.0.1\r\nConnection: close\r\n\r\n", raw_path);
     s.write_all(req.as_bytes()).map_err(|e| format!("write: {}", e))?;
     let mut buf = vec![];
@@ -831,8 +896,12 @@ fn serve_menu(port: u16, fs_model: &Fs, extra_valid: &[String], requests: &mut u
             if !p.starts_with(".ruler/cache/") && !p.starts_with(".ruler/history/") && !f.data.is_empty() { forbidden.push((*f.data).clone()); }
         }
     }
+    // once the server has stopped answering, the remaining requests of this directory are not sent
+    // (each would only wait for its time-out); the finding is already recorded
+    let mut dead = false;
     let mut get = |path: &str, bad: &mut Vec<(String, String)>| -> Option<Resp>
     {
+        if dead { return None; }
         *requests += 1;
         match http_get(port, path)
         {
@@ -844,7 +913,7 @@ fn serve_menu(port: u16, fs_model: &Fs, extra_valid: &[String], requests: &mut u
                 }
                 Some(r)
             },
-            Err(e) => { bad.push(("the server stopped answering".into(), format!("GET {}: {}", path, e))); None },
+            Err(e) => { dead = true; bad.push(("the server stopped answering".into(), format!("GET {}: {}", path, e))); None },
         }
     };
     // every cache entry: 200, exact bytes, name = hash of body
@@ -991,6 +1060,7 @@ fn serve_menu(port: u16, fs_model: &Fs, extra_valid: &[String], requests: &mut u
         }
     }
     // still alive
+    if dead { return bad; }
     if let Some((name, data)) = cache.iter().find(|(n, _)| n.len() == 43)
     {
         match http_get(port, &format!("/files/{}", name))
@@ -1075,12 +1145,13 @@ pub fn run_serve(rep: &mut Report, tier: &str)
 {
     let bin = match build_real_binary() { Ok(b) => b, Err(e) => { rep.machinery(e); return; } };
     let thorough = tier == "thorough";
-    let cap = if thorough { 100 } else { 20 };
+    let cap = if thorough { 120 } else { 24 };
     let mut dirs: Vec<(String, Vec<Op>, Fs)> = vec![];
     // S13: non-UTF-8 entries; S18: zero-byte entries; S16: entries of 4 KiB - 79 KiB (longer than any one read or write)
-    for sc in [crate::scen::s1_chain(), crate::scen::s3_multi(), crate::scen::s13_binary(), crate::scen::s18_empty(), crate::scen::s16_big()]
+    // S9: several rules with one and the same sources hash and different outputs
+    for sc in [crate::scen::s1_chain(), crate::scen::s3_multi(), crate::scen::s13_binary(), crate::scen::s18_empty(), crate::scen::s16_big(), crate::scen::s9_scope()]
     {
-        for (p, fs) in ruler_dirs(&sc, if thorough { 5 } else { 4 }, cap / 5)
+        for (p, fs) in ruler_dirs(&sc, if thorough { 5 } else { 4 }, cap / 6)
         {
             dirs.push((sc.name.clone(), p, fs));
         }
@@ -1112,9 +1183,15 @@ pub fn run_serve(rep: &mut Report, tier: &str)
                 fsm.put("secret.txt", crate::memsys::bytes("TOP SECRET outside .ruler"), 1, None);
                 fsm.put(".ruler/private-note", crate::memsys::bytes("inside .ruler but outside cache and history"), 1, None);
                 materialise(&fsm, &dir);
+                // things that are not regular files under well-formed names inside the cache directory:
+                // the cache does not "hold bytes" for them, so they are 404 like any absent hash
+                let dir_name = refsha::encode62(&refsha::sha256(b"a directory sitting in the cache"));
+                let fifo_name = refsha::encode62(&refsha::sha256(b"a named pipe sitting in the cache"));
+                let _ = fs::create_dir_all(dir.join(CACHE_DIR).join(&dir_name));
+                let _ = Command::new("mkfifo").arg(dir.join(CACHE_DIR).join(&fifo_name)).status();
                 let srv = match start_server(&bin, &dir, i % 2 == 1) { Ok(s) => s, Err(e) => { machinery.lock().unwrap().push(e); continue; } };
                 // valid hashes that are not cache entries: leaf hashes, a rule ticket, an arbitrary one
-                let mut extra: Vec<String> = vec![refsha::encode62(&refsha::sha256(b"not cached anywhere")), refsha::encode62(&[0u8; 32]), refsha::encode62(&[0xff; 32])];
+                let mut extra: Vec<String> = vec![refsha::encode62(&refsha::sha256(b"not cached anywhere")), refsha::encode62(&[0u8; 32]), refsha::encode62(&[0xff; 32]), dir_name, fifo_name];
                 for (p, n) in fsm.map.iter() { if let Node::File(f) = n { if !p.starts_with(".ruler") { extra.push(refsha::cache_name(&f.data)); } } }
                 let (mut r, mut k, mut al) = (0u64, 0u64, 0u64);
                 let bad = serve_menu(srv.port, &fsm, &extra, &mut r, &mut k, &mut al);
